@@ -125,9 +125,9 @@ func textAlternatives(sym string) []string {
 	case "(float)":
 		return []string{"1.5", "1e999"}
 	case "(string)":
-		return []string{`"s"`, `"fmt"`, "`raw`", `"bad\q"`}
+		return []string{`"s"`, `"fmt"`, "`raw`", `"\ud800"`}
 	case "(char)":
-		return []string{`'a'`, `'\n'`, `''`}
+		return []string{`'a'`, `'\n'`, `'\ud800'`}
 	}
 	return []string{sym}
 }
